@@ -140,6 +140,15 @@ Failed(s, i, f, hp) ==
   (IF j.c4b THEN <<>> ELSE <<"C4b-not-most-recent-port">>) \o
   (IF j.c5 THEN <<>> ELSE <<"C5-buffer-leak">>)
 
+\* the ports the clauses demand for this hop ({0} where they leave latitude:
+\* an older cached flow may deliver to any ports where the address was seen)
+Demanded(s, i, f, hp) ==
+  LET sn    == SeenAt(s, i, f)
+      known == Known(sn, f)
+      older == \E fl \in FlowsAt(s, i, f) : Covers(fl, i, f) /\ fl.stale
+  IN IF Filtered(f) THEN {} ELSE IF Group(f) \/ ~known THEN Ports \ {i}
+     ELSE IF hp.pktin > 0 \/ ~older THEN {sn[f.dst].last} \ {i} ELSE {0}
+
 \* the hops are exactly the frame's way through the network: it starts where
 \* the host is attached, follows every link it was emitted on, visits a
 \* switch at most once
@@ -172,7 +181,7 @@ Reached(hops) == {hp.s : hp \in hops}
 Effect(f, hops) ==
   /\ seen' = [s \in Switches |-> IF s \in Reached(hops)
                 THEN SeenAt(s, HopAt(hops, s).i, f) ELSE seen[s]]
-  /\ ctl' = [s \in Switches |-> IF s \in Reached(hops) /\ HopAt(hops, s).pktin > 0
+  /\ ctl' = [s \in Switches |-> IF s \in Reached(hops) /\ HopAt(hops, s).lrn > 0
                 THEN [ctl[s] EXCEPT ![f.src] = HopAt(hops, s).i] ELSE ctl[s]]
   /\ flows' = [s \in Switches |-> IF s \in Reached(hops)
                 THEN FlowsAfter(s, HopAt(hops, s).i, f, HopAt(hops, s)) ELSE flows[s]]
@@ -203,6 +212,27 @@ Expired(fl) == (fl.ito > 0 /\ fl.idle > fl.ito) \/ (fl.hto > 0 /\ fl.age > fl.ht
 NewFlow(inp, f, out, ito, hto) ==
   [inp |-> inp, src |-> f.src, dst |-> f.dst, shs |-> {f.sh}, out |-> out, ito |-> ito, hto |-> hto]
 
+\* DECISION CLASSES of a packet-in: one per branch of the controller's handler
+\* (LLDP ethertype / bridge-filtered destination / group destination / unknown
+\* unicast / destination lives on the ingress port / forward).  The class of a
+\* frame is decided with the source already learned (a self-addressed frame is
+\* "same").
+Classes == {"lldp", "filt", "group", "unknown", "same", "fwd"}
+ClassOf(f, cn, i) ==
+  IF f.sh = "l" THEN "lldp" ELSE IF f.dst = FILT THEN "filt" ELSE IF Group(f) THEN "group"
+  ELSE IF ~(f.dst \in Hosts /\ cn[f.dst] # 0) THEN "unknown"
+  ELSE IF cn[f.dst] = i THEN "same" ELSE "fwd"
+\* DUTIES the controller owes to EVERY packet-in, whatever its class: learn the
+\* source; delete the flows of a source that shows up on a new port.  The
+\* design performs both on all classes.  A configuration may override these two
+\* definitions (cfg: `DeleteOn <- ...`) to obtain a MUTANT design that skips a
+\* duty on some class: TLC must then find `Conforms` violated, and the
+\* histories on which it is violated (WitnessT below) are inputs that tell the
+\* design from that mistake - they are run on the real code like every other
+\* exported behaviour (MutLearningNet.tla).
+LearnOn  == Classes
+DeleteOn == Classes
+
 \* what switch s and the controller do with frame f arriving on port i
 DesignHop(s, i, f, cache) ==
   LET hits == {fl \in flows[s] : Covers(fl, i, f)} IN
@@ -212,12 +242,16 @@ DesignHop(s, i, f, cache) ==
            fl == IF ex # {} THEN CHOOSE x \in ex : TRUE ELSE CHOOSE x \in hits : TRUE
        IN [s |-> s, i |-> i, pktin |-> 0, out |-> fl.out \ {i}, dup |-> 0, mod |-> 0,
            inst |-> {}, tbl |-> Pats(flows[s]), buf |-> 0,
-           via |-> IF fl.stale THEN "older-flow" ELSE IF fl.out = {} THEN "drop-flow" ELSE "flow"]
+           via |-> IF fl.stale THEN "older-flow" ELSE IF fl.out = {} THEN "drop-flow" ELSE "flow",
+           lrn |-> 0, mv |-> "none"]
   ELSE \* table miss: packet-in; the controller learns, then decides
-       LET cn    == [ctl[s] EXCEPT ![f.src] = i]
+       LET cl    == [ctl[s] EXCEPT ![f.src] = i]
+           cls   == ClassOf(f, cl, i)
+           cn    == IF cls \in LearnOn THEN cl ELSE ctl[s]
            known == f.dst \in Hosts /\ cn[f.dst] # 0
            p     == IF known THEN cn[f.dst] ELSE 0
-           gone  == IF DeleteOnMove /\ ctl[s][f.src] \notin {0, i}
+           moved == ctl[s][f.src] \notin {0, i}
+           gone  == IF DeleteOnMove /\ cls \in DeleteOn /\ moved
                     THEN {fl \in flows[s] : fl.src = f.src} ELSE {}
            out   == IF Filtered(f) THEN {}
                     ELSE IF Group(f) \/ ~known THEN Ports \ {i}
@@ -229,7 +263,11 @@ DesignHop(s, i, f, cache) ==
        IN [s |-> s, i |-> i, pktin |-> 1, out |-> out, dup |-> 0, mod |-> 0,
            inst |-> inst, tbl |-> Pats(flows[s] \ gone) \cup Pats(inst), buf |-> 0,
            via |-> IF Filtered(f) THEN "filtered" ELSE IF Group(f) \/ ~known THEN "flood"
-                   ELSE IF p = i THEN "same-port" ELSE "forward"]
+                   ELSE IF p = i THEN "same-port" ELSE "forward",
+           lrn |-> IF cls \in LearnOn THEN 1 ELSE 0,
+           \* the packet-in of a source that has moved, by decision class; "+" when
+           \* flows of that source were still cached (and are deleted now)
+           mv  |-> IF ~moved THEN "none" ELSE IF gone # {} THEN cls \o "+" ELSE cls]
 
 RECURSIVE Walk(_, _, _, _)
 Walk(todo, done, f, cache) ==
@@ -273,7 +311,10 @@ Tick(d, sweep) ==
   IN /\ TickObs(d, tbls)
      /\ Log("Tick", [d |-> d, sweep |-> sweep], [tbls |-> tbls], {})
 
-SendAny == \E h \in Hosts, dst \in Dsts, sh \in Shapes, c \in Caches : Send(h, dst, sh, c)
+\* the frames Send ranges over: every destination in every shape (a configuration may override this
+\* definition by a subset of Dsts \X Shapes)
+Frames == Dsts \X Shapes
+SendAny == \E h \in Hosts, fr \in Frames, c \in Caches : Send(h, fr[1], fr[2], c)
 MoveAny == \E h \in Hosts, sp \in MovePorts : Move(h, sp)
 TickAny == \E d \in Gaps, sw \in Sweeps : Tick(d, sw)
 Next == SendAny \/ MoveAny \/ TickAny
@@ -281,19 +322,34 @@ Next == SendAny \/ MoveAny \/ TickAny
 \* the same relation, split by what happened (names for TLC's coverage report:
 \* a case that no transition exercises makes the model run vacuous)
 HasVia(k) == \E hp \in last'.full : hp.via = k
-ViaFiltered  == \E h \in Hosts, dst \in Dsts, sh \in Shapes, c \in Caches : Send(h, dst, sh, c) /\ HasVia("filtered")
-ViaFlood     == \E h \in Hosts, dst \in Dsts, sh \in Shapes, c \in Caches : Send(h, dst, sh, c) /\ HasVia("flood")
-ViaForward   == \E h \in Hosts, dst \in Dsts, sh \in Shapes, c \in Caches : Send(h, dst, sh, c) /\ HasVia("forward")
-ViaSamePort  == \E h \in Hosts, dst \in Dsts, sh \in Shapes, c \in Caches : Send(h, dst, sh, c) /\ HasVia("same-port")
-ViaFlow      == \E h \in Hosts, dst \in Dsts, sh \in Shapes, c \in Caches : Send(h, dst, sh, c) /\ HasVia("flow")
-ViaDropFlow  == \E h \in Hosts, dst \in Dsts, sh \in Shapes, c \in Caches : Send(h, dst, sh, c) /\ HasVia("drop-flow")
-ViaOlderFlow == \E h \in Hosts, dst \in Dsts, sh \in Shapes, c \in Caches : Send(h, dst, sh, c) /\ HasVia("older-flow")
-ViaLink      == \E h \in Hosts, dst \in Dsts, sh \in Shapes, c \in Caches :
-                 Send(h, dst, sh, c) /\ Cardinality(last'.full) > 1
+ViaFiltered  == \E h \in Hosts, fr \in Frames, c \in Caches : Send(h, fr[1], fr[2], c) /\ HasVia("filtered")
+ViaFlood     == \E h \in Hosts, fr \in Frames, c \in Caches : Send(h, fr[1], fr[2], c) /\ HasVia("flood")
+ViaForward   == \E h \in Hosts, fr \in Frames, c \in Caches : Send(h, fr[1], fr[2], c) /\ HasVia("forward")
+ViaSamePort  == \E h \in Hosts, fr \in Frames, c \in Caches : Send(h, fr[1], fr[2], c) /\ HasVia("same-port")
+ViaFlow      == \E h \in Hosts, fr \in Frames, c \in Caches : Send(h, fr[1], fr[2], c) /\ HasVia("flow")
+ViaDropFlow  == \E h \in Hosts, fr \in Frames, c \in Caches : Send(h, fr[1], fr[2], c) /\ HasVia("drop-flow")
+ViaOlderFlow == \E h \in Hosts, fr \in Frames, c \in Caches : Send(h, fr[1], fr[2], c) /\ HasVia("older-flow")
+ViaLink      == \E h \in Hosts, fr \in Frames, c \in Caches :
+                 Send(h, fr[1], fr[2], c) /\ Cardinality(last'.full) > 1
 TickExpires  == \E d \in Gaps, sw \in Sweeps : Tick(d, sw) /\ flows' # flows /\ \E s \in Switches : Cardinality(flows'[s]) < Cardinality(flows[s])
 TickKeeps    == \E d \in Gaps, sw \in Sweeps : Tick(d, sw) /\ \A s \in Switches : Cardinality(flows'[s]) = Cardinality(flows[s])
+\* a source that has moved announces itself by a frame of each decision class
+\* while flows of its traffic at the old port are still cached
+HasMv(k) == \E hp \in last'.full : hp.mv = k
+\* (these cases are counted on the steps below MvDepth: a configuration may lower it so that the split costs
+\* its extra passes over the Sends on the short histories only; 4 steps are needed to get there)
+MvDepth == 1000
+MvLldp    == Len(hist) < MvDepth /\ \E h \in Hosts, fr \in Frames, c \in Caches : Send(h, fr[1], fr[2], c) /\ HasMv("lldp+")
+MvFilt    == Len(hist) < MvDepth /\ \E h \in Hosts, fr \in Frames, c \in Caches : Send(h, fr[1], fr[2], c) /\ HasMv("filt+")
+MvGroup   == Len(hist) < MvDepth /\ \E h \in Hosts, fr \in Frames, c \in Caches : Send(h, fr[1], fr[2], c) /\ HasMv("group+")
+MvUnknown == Len(hist) < MvDepth /\ \E h \in Hosts, fr \in Frames, c \in Caches : Send(h, fr[1], fr[2], c) /\ HasMv("unknown+")
+MvSame    == Len(hist) < MvDepth /\ \E h \in Hosts, fr \in Frames, c \in Caches : Send(h, fr[1], fr[2], c) /\ HasMv("same+")
+MvFwd     == Len(hist) < MvDepth /\ \E h \in Hosts, fr \in Frames, c \in Caches : Send(h, fr[1], fr[2], c) /\ HasMv("fwd+")
 NextC == ViaFiltered \/ ViaFlood \/ ViaForward \/ ViaSamePort \/ ViaFlow \/ ViaDropFlow \/ ViaOlderFlow
          \/ ViaLink \/ MoveAny \/ TickExpires \/ TickKeeps
+\* (the re-plug family's configurations use NextCR = all steps + these cases; every case costs one more
+\* pass over the Sends, and the other Via cases are exercised by the other configurations)
+NextCR == Next \/ ViaOlderFlow \/ MvLldp \/ MvFilt \/ MvGroup \/ MvUnknown \/ MvSame \/ MvFwd
 Spec == Init /\ [][Next]_vars
 
 ----------------------------------------------------------------------------
@@ -311,7 +367,7 @@ TypeOK ==
 
 \* the controller always knows the port an address was last seen on: no
 \* cached flow of the design hides a move
-CtlTrue == (DropInPort /\ DeleteOnMove) =>
+CtlTrue == (DropInPort /\ DeleteOnMove /\ LearnOn = Classes /\ DeleteOn = Classes) =>
              \A s \in Switches, m \in Hosts : ctl[s][m] = seen[s][m].last
 
 \* C5 as a state invariant
@@ -333,11 +389,12 @@ CacheSound ==
 
 \* THE PROPERTY: every hop of every frame the design forwards is one an ideal
 \* learning bridge allows (evaluated in the state before the frame)
-Conforms ==
-  [][last'.a = "Send" =>
+StepOK ==
+  last'.a = "Send" =>
        LET f == Frame(last'.args.h, last'.args.dst, last'.args.sh) IN
        /\ Routed(last'.args.h, last'.full)
-       /\ \A hp \in last'.full : HopOK(hp.s, hp.i, f, hp)]_vars
+       /\ \A hp \in last'.full : HopOK(hp.s, hp.i, f, hp)
+Conforms == [][StepOK]_vars
 
 \* readable corollaries of Conforms, stated directly on the deliveries
 NeverBack ==
@@ -360,4 +417,8 @@ FreshDecision ==
 Bound   == Len(hist) <= D
 Export  == (Len(hist) = D) => PrintT(<<"H", ToJson(hist)>>)
 ExportT == PrintT(<<"T", ToJson(hist')>>)
+\* witness export (ACTION_CONSTRAINT): a step that breaks the property is printed
+\* and not explored further; meaningful on MUTANT designs only (on the design
+\* itself Conforms says there is none)
+WitnessT == IF StepOK THEN TRUE ELSE PrintT(<<"W", ToJson(hist')>>) /\ FALSE
 =============================================================================
